@@ -18,6 +18,7 @@
 import Props.Defs
 import Proofs.Conflict
 import Proofs.ConflictAll
+import Proofs.SeparatedTrans
 namespace Coma.Props
 open Coma Coma.Spec
 
@@ -79,6 +80,17 @@ theorem C15_adjacent_separated_partial (P : Params) (c : Seg) (cs out : List Seg
     (hS : ∀ a ∈ c :: cs, ∀ b ∈ c :: cs, StrictCoords a b) (hb : ∀ b ∈ bs, b ≠ Branch.interior) :
     Consec Separated out :=
   Coma.Proofs.resolveFrom_adjacent_separated P c cs out bs h hF hS hb
+
+/-- … and then ALL final segments are pairwise separated (no shared label, no crossing between ANY two of them),
+    provided every member still keeps a pair: separation is transitive through a member that keeps a pair. The two
+    hypotheses are exactly what the known findings violate — KF-b (an interior index merge) and KF-a (a member between
+    two others that is emptied or left pair-less) -/
+theorem C15_global_separated_partial (P : Params) (c : Seg) (cs out : List Seg) (bs : List Branch)
+    (h : resolveFromB P c cs = .ok (out, bs)) (hF : ∀ s ∈ c :: cs, FactoryLike s)
+    (hS : ∀ a ∈ c :: cs, ∀ b ∈ c :: cs, StrictCoords a b) (hb : ∀ b ∈ bs, b ≠ Branch.interior)
+    (hkeep : ∀ s ∈ out, s.pairs ≠ []) :
+    out.Pairwise Separated :=
+  Coma.Proofs.consec_pairwise out (Coma.Proofs.resolveFrom_adjacent_separated P c cs out bs h hF hS hb) hkeep
 
 /-- neighbours of an emptied chain member are never compared (F5): three chain members, the
     middle one is emptied, its neighbours keep query label 3 -/
